@@ -26,7 +26,7 @@ from . import c11_cells as cells
 from . import c11_gen as gen
 
 PID = 'C11'
-TARGETS = ['KyupyVerif.Props.C11']
+TARGETS = ['KyupyVerif.Props.C11', 'KyupyVerif.Props.C11Library']
 RULE = ('random flat netlists (1-7 input bits, 1-5 output bits, 0-3 flip-flops/latches, 1-14 cells/assign statements; cells of '
         'NANGATE/SAED32/SAED90/GSC180 incl. asymmetric AOI/OAI/MUX/ISOL cells, 4-output DEC24, tie cells, DFF/DFFR/DFFS/SDFF/latch '
         'variants with a hand-written datasheet, or bench primitives incl. AOI21/MUX21 kinds) x Verilog renderings: declarations '
@@ -51,6 +51,11 @@ TEXT_FMTS = ('bench', 'verilog')      # formats whose lexer + grammar are modell
 
 def theorems():
     return common.theorems_of('KyupyVerif/Props/C11.lean', 'KV.C11')
+
+
+def theorems_lib():
+    """capstone composition with C10 / C19 / C01 (separate module: it depends on the generated library tables)"""
+    return common.theorems_of('KyupyVerif/Props/C11Library.lean', 'KV.C11')
 
 
 PRIM_SRC = None
@@ -708,6 +713,131 @@ def parsed_sem_verilog(ck, case, c):
     ck.hist['parsed-sem:verilog:ground-truth-rows'] += sub2.shape[1]
 
 
+LIBNAMES = ['GSC180', 'NANGATE', 'NANGATE_ZN', 'SAED32', 'SAED90']       # Gen.libNames: row lookup in the generated C19 tables
+LIB_HYPS = ['verilogOKB', 'libCleanB', 'wf(parsed)', 'resolveOKB', 'resolve-model-answers', 'InstCert(all library cells)',
+            's_nodes-kept', 'orderOKB(resolved)', 'forksOKB(resolved)', 'linesDrivenB(resolved)']
+
+
+def library_sem(ck, case, c):
+    """tie of the capstone `C11.verilog_library_end_to_end` (Props/C11Library.lean) for one generated Verilog case over a built-in
+    library: the driver (`verilogsemlib`) evaluates every hypothesis of the theorem on the model objects — the fragment, the
+    well-formedness of the parsed dump, `resolveOKB`, the certificate `InstCert` of every library-cell node against the REAL
+    implementation circuits and the generated library tables, the scheduling hypotheses of the resolved circuit with the REAL
+    topological order — (tags `library-sem:*`, covered cases counted); the model's resolved dump must equal the dump of the REAL
+    parsed + resolved circuit; for covered cases the datasheet model `sigma` (evaluator `vEvalLib`, accepted by `vModelLibB`)
+    observed at output ports and state elements must equal the REAL LogicSim(m=2) on the REAL resolved circuit on sampled rows."""
+    from . import circ
+    if case['tlib'] not in LIBNAMES or c is None: return
+    tlib = get_tlib(case['tlib'])
+    kinds = [s_[1] for s_ in case['ast']['stmts'] if s_[0] == 'inst']
+    fix, one = probe_cfg()
+    cfg = f"{1 if case['bf'] else 0}{1 if fix else 0}{1 if one else 0}"
+    try:
+        table, toks = enc_pintable(tlib, kinds), enc_verilog(case['ast'])
+    except Exception:
+        ck.hist['library-sem:not-encodable'] += 1; return
+    try:
+        c2 = parse_real(case)                          # a fresh object: the unresolved one belongs to the other streams
+        with quiet():
+            c2.resolve_tlib_cells(tlib)
+        order = ','.join(str(n.index) for n in c2.topological_order()) or '~'
+    except Exception as ex:
+        ck.hist['library-sem:real-resolve-or-order-raises'] += 1; return
+    if any(n is None for n in c2.io_nodes):
+        ck.hist['library-sem:unassigned-port-position'] += 1; return
+    blocks = []
+    for k in sorted(set(kinds)):
+        if k not in tlib.cells: continue
+        impl = tlib.cells[k][0]
+        try:
+            io = ','.join(str(n.index) for n in impl.topological_order()) or '~'
+        except Exception:
+            io = '~'
+        blocks.append(f"@@ {pct(k)} {circ.dump_names(impl) or '~'} {circ.dump_net(impl).replace(' ', '')} {io}")
+    snodes = list(c2.s_nodes)
+    assigned = [k for k, n in enumerate(snodes) if n.kind == 'input' or 'dff' in n.kind.lower() or 'latch' in n.kind.lower()]
+    rows = stim_rows(len(assigned), case.get('seed', 0))
+    ncol = rows.shape[1]
+    cols = sorted(set([0, ncol - 1] + [ck.rng.randrange(ncol) for _ in range(10)]))
+    sub = rows[:, cols]
+    reqs = []
+    for j in range(sub.shape[1]):
+        a = ['0'] * len(snodes)
+        for k, p_ in enumerate(assigned): a[p_] = str(int(sub[k, j]))
+        reqs.append(''.join(a))
+    try:
+        ans = common.run_driver([f"verilogsemlib {cfg} {table} {toks} {LIBNAMES.index(case['tlib'])} {order} {'/'.join(reqs) or '~'} "
+                                 + ' '.join(blocks)])[0].split(' ')
+    except Exception as ex:
+        ck.broken_tie('library_sem: driver', f'{type(ex).__name__}: {ex}'[:300], inp=_slim(case)); return
+    if len(ans) != 4 or not ans[0].startswith('hyp=') or not ans[1].startswith('names=') or not ans[2].startswith('dump='):
+        ck.broken_tie('library_sem: driver answer', ' '.join(ans)[:200], inp=_slim(case)); return
+    flags = ans[0][4:]
+    names = [] if ans[1] == 'names=~' else ans[1][6:].split(',')
+    dump = ans[2][5:]
+    if len(flags) != len(LIB_HYPS):
+        ck.broken_tie('library_sem: driver answer', ans[0], inp=_slim(case)); return
+    if flags[0] == '1' and flags[4] == '1':
+        real = canonical_dump(c2) + ';' + circ.dump_names(c2)
+        if dump != real:
+            k = next((i for i, (x, y) in enumerate(zip(dump, real)) if x != y), min(len(dump), len(real)))
+            ck.broken_tie('library_sem: resolved dump', f'model of parse + resolve_tlib_cells differs from the real resolved circuit at char {k}: '
+                          f'model {dump[max(0, k - 20):k + 30]!r} real {real[max(0, k - 20):k + 30]!r}', inp=_slim(case)); return
+        ck.hist['library-sem:resolved-dump-equal'] += 1
+    bad = [LIB_HYPS[i] for i, f in enumerate(flags) if f != '1']
+    if bad:
+        ck.hist[f'library-sem:outside:{bad[0]}'] += 1
+        return
+    if [f'c:{pct(n.name)}' for n in snodes] != names:
+        ck.broken_tie('library_sem: s_nodes', f'model {names} != real resolved {[n.name for n in snodes]}', inp=_slim(case)); return
+    tab, err = simulate(c2, [snodes[k] for k in assigned], snodes, sub)
+    if tab is None:
+        ck.broken_tie('library_sem: real simulation of the resolved circuit', str(err), inp=_slim(case)); return
+    got = [] if ans[3] == '~' else ans[3].split('/')
+    if len(got) != sub.shape[1]:
+        ck.broken_tie('library_sem: driver answer', ' '.join(ans)[:200], inp=_slim(case)); return
+    for j, g in enumerate(got):
+        if g.endswith('!'):
+            ck.broken_tie('library_sem: model check', f'vModelLibB rejects the environment vEvalLib computes (assignment {reqs[j]})',
+                          inp=_slim(case)); return
+        for k, n in enumerate(snodes):
+            if g[k] == '-': continue            # nothing captured at an input port
+            if g[k] != str(int(tab[k, j])):
+                ck.broken_tie('library_sem: datasheet denotation', f'datasheet model sigma observed at {n.name!r}: {g[k]} != real LogicSim '
+                              f'on the real parsed+resolved circuit: {int(tab[k, j])} (assignment {reqs[j]} over {names})',
+                              inp=_slim(case)); return
+    ck.hist['library-sem:covered'] += 1
+    ck.hist['library-sem:covered-rows'] += sub.shape[1]
+    ck.hist[f"library-sem:covered:lib={case['tlib']}"] += 1
+    ck.hist[f"library-sem:covered:instances={min(len(kinds), 8)}{'+' if len(kinds) > 8 else ''}"] += 1
+    if any(n.kind != 'input' and n.kind != 'output' for n in snodes): ck.hist['library-sem:covered:with-primitive-state-elements'] += 1
+
+
+LISTED_OUT = {'DEC24', 'ISOLAND', 'ISOLOR', 'CONST0', 'CONST1'}
+
+
+def library_stream(ck, n, notes):
+    """netlists aimed at the hypotheses of `verilog_library_end_to_end`: combinational cells of the listed families only (the
+    catalogue of the library is restricted while the netlist is generated), no flip-flops, few constants; rendered like every other
+    netlist and run through ALL checks of a Verilog case (oracle included)"""
+    for _ in range(n):
+        lib = ck.rng.choice(VLIBS)
+        full = cells.LIBS[lib]
+        cells.LIBS[lib] = [e for e in full if not cells.is_seq(e['fam']) and e['ins'] and e['fam'] not in LISTED_OUT]
+        try:
+            nl = gen.gen_netlist(ck.rng, lib, p_esc=0.1, p_const=0.03, max_gates=ck.rng.choice([3, 6, 10]), allow_onebit_nz=False)
+        finally:
+            cells.LIBS[lib] = full
+        if ck.rng.random() < 0.5:
+            nl2 = to_fragment(ck.rng, nl)
+            if nl2 is not None and not any(g['fam'] in LISTED_OUT for g in nl2['gates']): nl = nl2
+        seed = ck.rng.randint(0, 2 ** 31 - 1)
+        rv = gen.render_verilog(ck.rng, nl)
+        case = dict(nl=nl, seed=seed, tlib=lib, fmt='verilog', bf=ck.rng.random() < 0.5, text=rv['text'], ast=rv['ast'],
+                    tags=rv['tags'] + ['stream:library'], assign_order=rv['assign_order'], ports=gen.expected_ports(nl))
+        run_netlist(ck, nl, [case], notes)
+
+
 def _slim(case):
     return {k: v for k, v in case.items() if not k.startswith('_')}
 
@@ -1013,7 +1143,9 @@ def run_netlist(ck, nl, cases, notes):
             c = None
         correspondence(ck, case, c)
         if case['fmt'] == 'bench': parsed_sem_bench(ck, case, c)
-        else: parsed_sem_verilog(ck, case, c)
+        else:
+            parsed_sem_verilog(ck, case, c)
+            library_sem(ck, case, c)
         if case['fmt'] in TEXT_FMTS: text_stream(ck, case, 2 if case['fmt'] == 'verilog' else 3, real=(c,))
         try:
             ok, obs, exp = eval_case(case)
@@ -1223,7 +1355,9 @@ def probes(ck, notes):
 
 
 def run(ck):
-    ck.prove([], TARGETS, theorems())
+    ck.prove([], TARGETS[:1], theorems())
+    import dump_techlib, dump_tables
+    ck.prove([dump_tables.generate, dump_techlib.generate], TARGETS[1:], theorems_lib())   # separate module: depends on the library tables
     notes = {}
     for k in ('BENCH', 'PRIM'): cells.LIBS.pop(k, None)        # synthetic libraries of an earlier run in this process (drift re-runs)
     for p in cells.catalog_check(): notes['datasheet vs library pin table: ' + p] = 1
@@ -1237,6 +1371,7 @@ def run(ck):
             ck.hist[f'text:{fmt}:probe:{st}'] += 1
     n = 45 * ck.scale
     stream(ck, n, notes)
+    library_stream(ck, n // 2, notes)
     odd_stream(ck, n, notes)
     try:
         probes(ck, notes)
